@@ -116,6 +116,7 @@ let rec build (rules : (string * nat) list) (s : sx) : expr =
             | r -> ERecExpr (build rules r, b 1))
        | "report" -> EReport ((n_of_string (atom (a 0)), n_of_string (atom (a 1))), b 2)
        | "respond" -> ERespond (n_of_string (atom (a 0)), b 1)
+       | "bre" -> EBre (unhex (atom (a 0)))
        | "pred" -> EPred (n_of_string (atom (a 0)), n_of_string (atom (a 1)))
        | _ -> raise (Unknown_op op))
   | _ -> failwith "bad expression"
@@ -281,6 +282,34 @@ let () =
               let c = n_of_int cp in
               Printf.printf "%d 0 %d %d %d %d %d\n" cp (oi int_of_n (tocasefold t c)) (oi int_of_n (tolower t c)) (oi int_of_n (toupper t c)) (oi int_of_z (cwidth t c)) (oi int_of_n (ucwidth t c))
             done
+        | "rs" :: ops ->
+            let t = Lazy.force ucd in
+            let answers = Buffer.create 16 in
+            let split3 op = (match String.split_on_char ':' op with
+                             | [_; a] -> (n_of_string a, N0) | [_; a; b] -> (n_of_string a, n_of_string b) | _ -> (N0, N0)) in
+            let result = List.fold_left (fun acc op ->
+                match acc with
+                | Error e -> Error e
+                | Ok rs ->
+                    if op = "so" then Ok (sort_and_optimize rs)
+                    else if op = "neg" then Ok (negate rs)
+                    else begin
+                      let (a, b) = split3 op in
+                      match op.[0] with
+                      | 'r' -> (match push_range rs a b with RsOk s -> Ok s | RsBadRange -> Error "character range is reversed" | RsIndex -> Error "table-index")
+                      | 'c' -> (match push_casefolded_range t rs a b with RsOk s -> Ok s | RsBadRange -> Error "character range is reversed" | RsIndex -> Error "table-index")
+                      | 'u' -> Ok (push_rune rs a)
+                      | '?' -> Buffer.add_char answers (if contains rs a then '1' else '0'); Ok rs
+                      | _ -> Ok rs
+                    end) (Ok rs_empty) ops in
+            (match result with
+             | Error e -> Printf.printf "throw %s\n" e
+             | Ok rs ->
+                 print_string "ascii=";
+                 for w = 0 to 3 do Printf.printf "%08x" (low32 (N.shiftr rs.ascii (n_of_int (32 * w)))) done;
+                 print_string " iv=";
+                 List.iter (fun (a, b) -> Printf.printf "%d-%d," (int_of_n a) (int_of_n b)) rs.ivs;
+                 Printf.printf " q=%s\n" (Buffer.contents answers))
         | ["wf"; h] -> (match wf_prefix (unhex h) with Some (c, r) -> Printf.printf "%d %d\n" (int_of_nat c) (int_of_n r) | None -> print_string "none\n")
         | _ -> print_string "error unknown-command\n"
       end
